@@ -399,6 +399,9 @@ def _selproto(fam, enc):
 
 
 for _fam, _encs in (("ebv", ("real", "integer", "binary")), ("gebv", ("subset", "real", "integer", "binary")), ("random", ("real", "integer", "binary")),
-                    ("ocs", ("subset", "real")), ("ohv", ("subset", "real")), ("uc", ("subset",))):
+                    ("ocs", ("subset", "real")), ("ohv", ("subset", "real")), ("uc", ("subset",)),
+                    ("wgs", ("subset", "real")), ("gwgebv", ("integer",)), ("febv", ("subset",)), ("meh", ("subset", "binary")),
+                    ("mgr", ("subset", "real")), ("pafd", ("subset",)), ("pau", ("subset",)), ("opv", ("subset",)),
+                    ("embv", ("subset", "real")), ("mogs", ("subset",)), ("gb", ("subset",))):
     for _enc in _encs:
         reg("select.%s.%s" % (_fam, _enc), heavy=True)(_selproto(_fam, _enc))
